@@ -532,7 +532,7 @@ func (r *rewriter) rewriteRange(c *astutil.Cursor, n *ast.RangeStmt) {
 		chv := r.tmp("c")
 		asg := &ast.AssignStmt{Lhs: []ast.Expr{lhs0, okv}, Tok: tok, Rhs: []ast.Expr{r.rtCall("Recv2", r.site(n, "rangechan"), chv)}}
 		brk := &ast.IfStmt{Cond: &ast.UnaryExpr{Op: token.NOT, X: okv}, Body: &ast.BlockStmt{List: []ast.Stmt{&ast.BranchStmt{Tok: token.BREAK}}}}
-		body := append(append(pre, asg, brk), n.Body.List...)
+		body := append(append(pre, asg, brk), &ast.BlockStmt{List: n.Body.List})
 		loop := &ast.ForStmt{Body: &ast.BlockStmt{List: body}}
 		// channel expression evaluated once
 		decl := &ast.AssignStmt{Lhs: []ast.Expr{chv}, Tok: token.DEFINE, Rhs: []ast.Expr{n.X}}
@@ -574,7 +574,7 @@ func (r *rewriter) rewriteRange(c *astutil.Cursor, n *ast.RangeStmt) {
 				head = append(head, &ast.AssignStmt{Lhs: []ast.Expr{ast.NewIdent("_")}, Tok: token.ASSIGN, Rhs: []ast.Expr{n.Value}})
 			}
 		}
-		n.Body.List = append(head, n.Body.List...)
+		n.Body.List = append(head, &ast.BlockStmt{List: n.Body.List})
 		n.Key = ast.NewIdent("_")
 		n.Value = kv
 		n.Tok = token.DEFINE
